@@ -10,7 +10,7 @@ From Mistletoe Require Import Base.Sx Base.PyStr Base.PyText Gen.GenTables Gen.G
 Import ListNotations.
 Local Open Scope Z_scope.
 
-Definition is_fpara (t : ftree) : bool := match t with FPara _ _ _ | FEm _ _ _ _ _ _ | FLink _ _ _ _ _ | FSent _ _ _ | FTick _ _ _ _ | FBrk _ _ _ _ | FOne _ _ _ _ => true | _ => false end.
+Definition is_fpara (t : ftree) : bool := match t with FPara _ _ _ | FEm _ _ _ _ _ _ | FLink _ _ _ _ _ | FSent _ _ _ | FTick _ _ _ _ _ | FBrk _ _ _ _ | FOne _ _ _ _ => true | _ => false end.
 
 (* the HTML of the inline element of a leaf FOne *)
 Definition inl_html (o : hopts) (x : inl) : str :=
@@ -80,7 +80,7 @@ Fixpoint html_f (o : hopts) (tight : bool) (t : ftree) : str :=
   | FSent c0 t0 gs =>
     let inner := escape_html_text o (c0 :: t0) ++ concat (map (seg_html o) gs) in
     if tight then inner else $"<p>" ++ inner ++ $"</p>"
-  | FTick c0 pre code post =>      (* the content of the span, one space stripped on each side when both are there, escaped as text *)
+  | FTick c0 pre n code post =>      (* the content of the span, one space stripped on each side when both are there, escaped as text *)
     let inner := escape_html_text o (c0 :: pre) ++ $"<code>" ++ escape_html_text o (code_content code) ++ $"</code>" ++ escape_html_text o post in
     if tight then inner else $"<p>" ++ inner ++ $"</p>"
   | FBrk c body k more =>
@@ -280,13 +280,13 @@ Proof.
     rewrite !serialize_app, E. cbn. rewrite ?app_nil_r, <- ?app_assoc. reflexivity.
 Qed.
 
-Lemma html_tick o sup c0 pre code post :
-  serialize (render o sup false (tok_of false (FTick c0 pre code post))) = html_f o sup (FTick c0 pre code post).
+Lemma html_tick o sup c0 pre n code post :
+  serialize (render o sup false (tok_of false (FTick c0 pre n code post))) = html_f o sup (FTick c0 pre n code post).
 Proof.
   cbn [tok_of html_f]. cbv zeta.
-  assert (E : serialize (flat_map (render o sup false) (RawText (c0 :: pre) :: code_of code :: raw_if post)) =
+  assert (E : serialize (flat_map (render o sup false) (RawText (c0 :: pre) :: code_of n code :: raw_if post)) =
               escape_html_text o (c0 :: pre) ++ $"<code>" ++ escape_html_text o (code_content code) ++ $"</code>" ++ escape_html_text o post).
-  { change (RawText (c0 :: pre) :: code_of code :: raw_if post) with ([RawText (c0 :: pre)] ++ [code_of code] ++ raw_if post).
+  { change (RawText (c0 :: pre) :: code_of n code :: raw_if post) with ([RawText (c0 :: pre)] ++ [code_of n code] ++ raw_if post).
     rewrite !flat_map_app. unfold serialize. rewrite !flat_map_app.
     fold (serialize (flat_map (render o sup false) (raw_if post))). rewrite ser_raw_if.
     rewrite code_of_eq. cbn [flat_map render c_content]. unfold wrap.
@@ -295,7 +295,7 @@ Proof.
   destruct sup.
   - cbn [render]. cbv iota. exact E.
   - cbn [render]. cbv iota. unfold wrap.
-    set (X := flat_map (render o false false) (RawText (c0 :: pre) :: code_of code :: raw_if post)) in *.
+    set (X := flat_map (render o false false) (RawText (c0 :: pre) :: code_of n code :: raw_if post)) in *.
     change (IOpen $"p" [] :: X ++ [IClose $"p"]) with ([IOpen $"p" []] ++ X ++ [IClose $"p"]).
     rewrite !serialize_app, E. cbn. rewrite ?app_nil_r, <- ?app_assoc. reflexivity.
 Qed.
@@ -398,11 +398,11 @@ Lemma html_fragment o : forall f t sup, (depth t <= f)%nat -> wf_b t = true ->
   serialize (render o sup false (tok_of false t)) = html_f o sup t.
 Proof.
   induction f as [|f IH]; intros t sup Hd Hw.
-  - destruct t as [c body more|ch n content|ts|mk pad ts|mk pad ts bl next|lv hc hb|rc rn|e0 epre ech edbl ew epost|l0 lpre lw ldest lpost|s0 st0' sgs|k0 kpre kcode kpost|b0 bbody bk bmore|o0 opre ox opost]; [| |cbn [depth] in Hd; lia|cbn [depth] in Hd; lia|cbn [depth] in Hd; lia| |reflexivity|apply html_em|apply html_link|apply html_sent|apply html_tick|apply html_brk|apply html_one].
+  - destruct t as [c body more|ch n content|ts|mk pad ts|mk pad ts bl next|lv hc hb|rc rn|e0 epre ech edbl ew epost|l0 lpre lw ldest lpost|s0 st0' sgs|k0 kpre kn kcode kpost|b0 bbody bk bmore|o0 opre ox opost]; [| |cbn [depth] in Hd; lia|cbn [depth] in Hd; lia|cbn [depth] in Hd; lia| |reflexivity|apply html_em|apply html_link|apply html_sent|apply html_tick|apply html_brk|apply html_one].
     + apply html_para.
     + cbn [tok_of render html_f f_language f_content]. cbn. rewrite ?app_nil_r. reflexivity.
     + apply html_head. cbn [wf_b] in Hw. repeat rewrite andb_true_iff in Hw. destruct Hw as [[[[[[H1 H2] _] _] _] _] _]. apply Nat.leb_le in H1, H2. lia.
-  - destruct t as [c body more|ch n content|ts|mk pad ts|mk pad ts bl next|lv hc hb|rc rn|e0 epre ech edbl ew epost|l0 lpre lw ldest lpost|s0 st0' sgs|k0 kpre kcode kpost|b0 bbody bk bmore|o0 opre ox opost]; [| | | | |apply html_head; cbn [wf_b] in Hw; repeat rewrite andb_true_iff in Hw; destruct Hw as [[[[[[H1 H2] _] _] _] _] _]; apply Nat.leb_le in H1, H2; lia|reflexivity|apply html_em|apply html_link|apply html_sent|apply html_tick|apply html_brk|apply html_one].
+  - destruct t as [c body more|ch n content|ts|mk pad ts|mk pad ts bl next|lv hc hb|rc rn|e0 epre ech edbl ew epost|l0 lpre lw ldest lpost|s0 st0' sgs|k0 kpre kn kcode kpost|b0 bbody bk bmore|o0 opre ox opost]; [| | | | |apply html_head; cbn [wf_b] in Hw; repeat rewrite andb_true_iff in Hw; destruct Hw as [[[[[[H1 H2] _] _] _] _] _]; apply Nat.leb_le in H1, H2; lia|reflexivity|apply html_em|apply html_link|apply html_sent|apply html_tick|apply html_brk|apply html_one].
     + apply html_para.
     + cbn [tok_of render html_f f_language f_content]. cbn. rewrite ?app_nil_r. reflexivity.
     + cbn [wf_b] in Hw. repeat rewrite andb_true_iff in Hw. destruct Hw as [[Hs Hall] Hg].
@@ -445,7 +445,7 @@ Qed.
 
 Lemma html_f_starts o t : exists r, html_f o false t = 60 :: r.
 Proof.
-  destruct t as [c body more|ch n content|ts|mk pad ts|mk pad ts bl next|lv hc hb|rc rn|e0 epre ech edbl ew epost|l0 lpre lw ldest lpost|s0 st0' sgs|k0 kpre kcode kpost|b0 bbody bk bmore|o0 opre ox opost]; cbn [html_f]; try (eexists; reflexivity);
+  destruct t as [c body more|ch n content|ts|mk pad ts|mk pad ts bl next|lv hc hb|rc rn|e0 epre ech edbl ew epost|l0 lpre lw ldest lpost|s0 st0' sgs|k0 kpre kn kcode kpost|b0 bbody bk bmore|o0 opre ox opost]; cbn [html_f]; try (eexists; reflexivity);
   (destruct mk as [b|ds d]; cbn [list_open]; [eexists; reflexivity|]; destruct (int_of_digits ds =? 1); eexists; reflexivity).
 Qed.
 
